@@ -303,7 +303,9 @@ func runScenario(job *Job) (res Result) {
 	defer func() {
 		for _, c := range peers {
 			c.close()
+			releasePort(c.lport)
 		}
+		releasePort(port)
 	}()
 	connect := func(n int) bool {
 		for i := 0; i < n; i++ {
